@@ -1,4 +1,97 @@
+(* C04 -- Over rationals, boxes / BD shapes / octagons are exact and best where documented.
+   BD shapes: the code's Floyd-Warshall closure over an exact carrier yields a CLOSED matrix
+   (C04_closure_closed), closed matrices are TIGHT (C04_fw_tight: every entry is the supremum of
+   x_j - x_i over the denoted set, attained when finite), hence emptiness, containment and equality tests
+   on closed forms are exact.  The disjointness test AS WRITTEN (pairwise opposed bounds) is refuted, for BD
+   shapes and for octagons.  Best abstraction: alpha computed with the verified supremum is sound and least
+   (boxes with open/closed bounds, BD shapes, octagons).
+   NOT proved: tightness of the octagon strong closure (Oct.strong_closure_tight_full and the other ..._full
+   statements of Shapes/Oct.v stay plain Definitions). *)
 From Coq Require Import List ZArith QArith.
-Require Import PPLV.Shapes.ExtNum PPLV.Shapes.DBM PPLV.Shapes.DBMExact.
-Theorem C04_is_disjoint_pairwise_refuted : exists (x y : nat -> nat -> ext Q), closed Qc 3 x /\ closed Qc 3 y /\ diag_inf 3 x /\ diag_inf 3 y /\ code_is_disjoint Qc 3 x y = false /\ (forall p, den Qc 3 x p -> den Qc 3 y p -> False).
+Require Import PPLV.Base.FM PPLV.Base.Sys PPLV.Base.Sup.
+Require Import PPLV.Shapes.ExtNum PPLV.Shapes.DBM PPLV.Shapes.DBMExact PPLV.Shapes.DBMClosed PPLV.Shapes.Oct
+               PPLV.Shapes.Templ PPLV.Shapes.ToSys.
+Local Open Scope Q_scope.
+
+Theorem C04_closure_closed : forall T (C : carrier T) n m m',
+  add_exact C -> diag_inf n m -> closure C n m = Some m' -> closed C n m' /\ diag_inf n m'.
+Proof. intros T C. exact (closure_closed C). Qed.
+
+Theorem C04_fw_tight : forall T (C : carrier T) n m i j B,
+  closed C n m -> diag_inf n m -> (i <= n)%nat -> (j <= n)%nat -> i <> j -> qle B (xv C (m i j)) ->
+  exists p, den C n m p /\ B <= p j - p i.
+Proof. intros T C. exact (fw_tight C). Qed.
+
+Theorem C04_closure_entry_attained : forall T (C : carrier T) n m m' i j t,
+  add_exact C -> diag_inf n m -> closure C n m = Some m' -> (i <= n)%nat -> (j <= n)%nat -> i <> j -> m' i j = Fin t ->
+  exists p, den C n m' p /\ p j - p i == val C t.
+Proof. intros T C. exact (closure_tight C). Qed.
+
+Theorem C04_entry_unbounded : forall T (C : carrier T) n m i j,
+  closed C n m -> diag_inf n m -> (i <= n)%nat -> (j <= n)%nat -> i <> j -> m i j = PInf ->
+  forall B, exists p, den C n m p /\ B <= p j - p i.
+Proof. intros T C. exact (tight_unbounded C). Qed.
+
+(* is_empty is exact: the closure answers "non-empty" only for non-empty shapes *)
+Theorem C04_is_empty_exact : forall T (C : carrier T) n m m',
+  add_exact C -> diag_inf n m -> closure C n m = Some m' -> exists p, den C n m' p.
+Proof. intros T C. exact (closure_some_nonempty C). Qed.
+
+Theorem C04_contains_exact : forall T (C : carrier T) n x y,
+  closed C n y -> diag_inf n y -> diag_inf n x ->
+  (code_contains C n x y = true <-> forall p, den C n y p -> den C n x p).
+Proof. intros T C. exact (contains_exact C). Qed.
+
+Theorem C04_equals_exact : forall T (C : carrier T) n x y,
+  closed C n x -> closed C n y -> diag_inf n x -> diag_inf n y ->
+  (code_equal C n x y = true <-> forall p, den C n x p <-> den C n y p).
+Proof. intros T C. exact (equals_exact C). Qed.
+
+(* the rational carrier satisfies the exactness hypothesis *)
+Theorem C04_rational_carrier_exact : add_exact Qc /\ neg_exact Qc.
+Proof. split; [exact Qc_add_exact|exact Qc_neg_exact]. Qed.
+
+(* BD_Shape::is_disjoint_from as written compares only pairwise opposed bounds: it misses disjointness through a cycle *)
+Theorem C04_is_disjoint_pairwise_refuted : exists (x y : nat -> nat -> ext Q),
+  closed Qc 3 x /\ closed Qc 3 y /\ diag_inf 3 x /\ diag_inf 3 y /\
+  code_is_disjoint Qc 3 x y = false /\ (forall p, den Qc 3 x p -> den Qc 3 y p -> False).
 Proof. exact is_disjoint_pairwise_refuted. Qed.
+
+Theorem C04_oct_is_disjoint_pairwise_refuted : exists x y : nat -> nat -> ext Q,
+  oct_closed_b Qc 3 x = true /\ oct_closed_b Qc 3 y = true /\ oct_code_is_disjoint Qc 3 x y = false /\
+  (forall p, den_oct Qc 3 x p -> den_oct Qc 3 y p -> False).
+Proof. exact oct_is_disjoint_pairwise_refuted. Qed.
+
+(* best abstraction *)
+Theorem C04_alpha_template_sound : forall keep n E es l,
+  alpha_t keep n E es = Some l -> forall p, sat_sys E p -> gamma_l l p.
+Proof. exact alpha_t_sound. Qed.
+
+Theorem C04_alpha_template_least : forall keep n E es l, alpha_t keep n E es = Some l ->
+  forall l', (forall e b, In (e, b) l' -> In e es /\ (keep = false -> forall q st, b = Some (q, st) -> st = false)) ->
+  (forall p, sat_sys E p -> gamma_l l' p) -> forall p, gamma_l l p -> gamma_l l' p.
+Proof. exact alpha_t_least. Qed.
+
+Theorem C04_alpha_bds_best : forall n E l, alpha_bds n E = Some l ->
+  (forall q, sat_sys E q -> gamma_l l q) /\
+  (forall m : nat -> nat -> ext Q, (forall q, sat_sys E q -> den Qc n m (ext0 q)) -> forall q, gamma_l l q -> den Qc n m (ext0 q)).
+Proof. exact alpha_bds_best. Qed.
+
+Theorem C04_alpha_oct_best : forall n E l, alpha_oct n E = Some l ->
+  (forall q, sat_sys E q -> gamma_l l q) /\
+  (forall m : nat -> nat -> ext Q, (forall q, sat_sys E q -> den_oct_stored n m q) -> forall q, gamma_l l q -> den_oct_stored n m q).
+Proof. exact alpha_oct_best. Qed.
+
+Theorem C04_alpha_box_best : forall keep n E l, alpha_box keep n E = Some l ->
+  (forall q, sat_sys E q -> gamma_l l q) /\
+  (forall b : list itv, length b = n -> no_empty_itv b -> (keep = false -> closed_itvs b) ->
+     (forall q, sat_sys E q -> den_box b q) -> forall q, gamma_l l q -> den_box b q).
+Proof. exact alpha_box_best. Qed.
+
+(* the set handed to the verified equivalence test is the template set *)
+Theorem C04_sys_of_pairs_exact : forall l p, sat_sys (sys_of_pairs l) p <-> gamma_l l p.
+Proof. exact sys_of_pairs_sat. Qed.
+
+(* join of best abstractions: pointwise larger bounds contain both pieces *)
+Theorem C04_zip_max_sound : forall l1 l2 p, map fst l1 = map fst l2 -> (gamma_l l1 p \/ gamma_l l2 p) -> gamma_l (zip_max l1 l2) p.
+Proof. exact zip_max_sound. Qed.
